@@ -191,7 +191,16 @@ def load_corpus():
     return out
 
 
-def gen_cases(ctx):
+def gen_defaults(rng, dcap, dlossy):
+    """tracing_appender::non_blocking(writer): the default configuration (capacity and mode as the translator read them)"""
+    c = gen_random(rng, "defaults")
+    c["cap"], c["lossy"], c["defaults"] = dcap, dlossy, True
+    total = sum(len(p) for p in c["progs"])
+    c["cmds"] = [k for k in c["cmds"] if k[0] != "Wp"][: 30] + epilogue(len(c["progs"]), total, 2)
+    return c
+
+
+def gen_cases(ctx, defaults=(128000, True)):
     rng = ctx.rng
     th = ctx.thorough()
     cases = [c for c in load_corpus()]
@@ -204,6 +213,8 @@ def gen_cases(ctx):
         cases.append(gen_timeout(rng))
     for _ in range(n_g):
         cases.append(gen_guard(rng))
+    for _ in range(6 if not th else 30):
+        cases.append(gen_defaults(rng, *defaults))
     for i, c in enumerate(cases):
         c["i"] = i
     return cases
@@ -242,7 +253,7 @@ def norm_model(m):
 
 def run_impl(binp, case, cmds, twait_ms):
     inp = {"cap": case["cap"], "lossy": case["lossy"], "progs": case["progs"], "lines": case["lines"], "faults": case["faults"],
-           "cmds": cmds, "twait_ms": twait_ms, "settle_ms": 15000}
+           "cmds": cmds, "twait_ms": twait_ms, "settle_ms": 15000, "defaults": bool(case.get("defaults"))}
     rc, out = vlib.sh([binp], 120, input=json.dumps(inp))
     for line in out.splitlines():
         if line.startswith("{"):
@@ -490,6 +501,8 @@ def check_cases(ctx, rep, cases, variant, binp, timeouts):
             rep.count("retried-for-timing")
         replay_case = {"cap": c["cap"], "lossy": c["lossy"], "progs": c["progs"], "lines": c["lines"], "faults": c["faults"],
                        "cmds": cmds, "tag": c["tag"], "no_epilogue": True}
+        if c.get("defaults"):
+            replay_case["defaults"] = True
         if o is None:
             rep.tie("run:h_nonblocking", False, "case %d (%s): %s" % (i, c["tag"], err), replay_case)
             continue
@@ -559,13 +572,16 @@ def common_front(ctx, rep):
     variant = m.group(1) if m else "FlushErrLosesState"
     ta = int(re.search(r"gen_send_timeout_ms : N := (\d+)", text).group(1))
     tb = int(re.search(r"gen_rdv_timeout_ms : N := (\d+)", text).group(1))
+    dcap = int(re.search(r"gen_default_cap : N := (\d+)", text).group(1))
+    dlossy = re.search(r"gen_default_lossy : bool := (\w+)", text).group(1) == "true"
+    rep.extra["defaults_in_source"] = {"cap": dcap, "lossy": dlossy}
     rep.extra["worker_variant_in_source"] = variant
     rep.proof = coq_prove(ctx, "C15", ["theories/Properties/C15.vo"])
     ok, paths, log = cargo_build(ctx, "nonblocking", ["h_nonblocking"], release=False)
     if not ok:
         rep.tie("build:h_nonblocking", False, vlib.last_error(log))
         return None
-    return variant, (ta, tb), paths["h_nonblocking"]
+    return variant, (ta, tb, dcap, dlossy), paths["h_nonblocking"]
 
 
 def run(ctx):
@@ -577,7 +593,7 @@ def run(ctx):
     if not os.path.exists("/proc/self/task"):
         rep.tie("platform:/proc", False, "the harness needs /proc/self/task/<tid>/stat")
         return rep
-    cases = gen_cases(ctx)
+    cases = gen_cases(ctx, defaults=(timeouts[2], timeouts[3]))
     for c in cases:
         if c.get("broken"):
             rep.tie("corpus", False, "%s: %s" % (c["tag"], c["broken"]))
